@@ -50,15 +50,34 @@ def run(res, tier, rng):
     base_hosts = ["facebook.com", "fb.me", "facebook.fr", "twitter.com", "x.com", "instagram.com", "telegram.org", "telegram.me", "t.me"]
     frac = 0.05 if tier == "quick" else 1.0
     listed = [d for d in list(SHORTENER_DOMAINS) + list(YOUTUBE_DOMAINS) + list(SHOULD_RESOLVE_DOMAINS) if rng.random() < frac]
-    hosts = []
-    for d in base_hosts + listed:
+    def variants(d):
         first, _, rest = d.partition(".")
-        hosts += [d, d.upper(), "www." + d, "a.b." + d, "not" + d, "x" + d, d + ".evil.fr", "evil.fr", first + "x" + rest if rest else d + "x"]
-    hosts += ["netflix.com", "chat.me", "instagramxcom", "notfacebook.com", "facebook.com.", "l.facebook.com", "l.instagram.com", "l.example.com", "localhost", "127.0.0.1", "youtu.be"]
-    hosts = list(dict.fromkeys(hosts))
-    decoys = ["", "/", "/x.facebook.com/", "/@facebook.com/", "/@t.me", "/abc", "/abcdef/", "/index.html", "/a/b.php?u=twitter.com", "?q=instagram.com", "#t.me", "/x.com", "/home", "/a.pdf", "/a.b.c.tar.gz"]
+        return [d, d.upper(), "www." + d, "a.b." + d, "not" + d, "x" + d, d + ".evil.fr", "evil.fr", first + "x" + rest if rest else d + "x", "l." + d]
+    hosts = []
+    core_hosts = []
+    for d in base_hosts:
+        core_hosts += variants(d)
+    for d in listed:
+        hosts += variants(d)
+    core_hosts += ["netflix.com", "chat.me", "instagramxcom", "notfacebook.com", "facebook.com.", "l.facebook.com", "l.instagram.com", "l.example.com", "localhost", "127.0.0.1", "youtu.be"]
+    core_hosts = list(dict.fromkeys(core_hosts))
+    hosts = [h for h in dict.fromkeys(hosts) if h not in core_hosts]
+    decoys = ["?next=user@facebook.com/login", "#a@fb.me/x", "?u=@twitter.com", "#@x.com/home", "?mail=me@www.instagram.com#top", "#chat@t.me",
+              "?c=x@telegram.me/chan", "/a?b@t.me", "/index", "/home/", "/index/", "/PhuS", "/Ab1/", "?@facebook.com:80", "#x@twitter.com?",
+              "/a/b", "/index.php", "/ab", "/a-b", "/%41bc", "/abc?x=1", "/abc#f", "//abc", "", "/", "/x.facebook.com/", "/@facebook.com/", "/@t.me", "/abc", "/abcdef/", "/index.html", "/a/b.php?u=twitter.com", "?q=instagram.com", "#t.me", "/x.com", "/home", "/a.pdf", "/a.b.c.tar.gz"]
     users = ["", "twitter.com@", "u:p@", "x.com:t.me@"]
     cases = []
+    # the sites' own domains and their look-alikes: every decoy, with a rotating userinfo / port (thorough: the full product)
+    k = 0
+    for h in core_hosts:
+        for tail in decoys:
+            if tier == "quick":
+                k += 1
+                cases.append((users[k % len(users)], h, ["", ":80"][(k // len(users)) % 2], tail))
+            else:
+                for ui in users:
+                    for port in ("", ":80"):
+                        cases.append((ui, h, port, tail))
     for h in hosts:
         for _ in range(3 if tier == "quick" else 6):
             cases.append((rng.choice(users), h, rng.choice(["", ":80"]), rng.choice(decoys)))
@@ -112,7 +131,8 @@ def run(res, tier, rng):
         if io["html"] != ch:
             res.violation("property", "could_be_html depends on something else than the path", input=dict(url=full), impl=[io["html"], ch])
         if not isinstance(io["short"], Exc) and not io["homepage"]:
-            l_rule = hl.startswith("l.") and len(path_only.strip("/")) >= 3 and path_only.strip("/").isalnum() and path_only.count("/") <= 2 and path_only.startswith("/") and "/" not in path_only.strip("/")
+            body = path_only[1:-1] if path_only.endswith("/") and len(path_only) > 1 else path_only[1:]
+            l_rule = hl.startswith("l.") and path_only.startswith("/") and len(body) >= 3 and body.isascii() and body.isalnum()
             exp_short = l_rule or under_any(hl, [d.lower() for d in SHORTENER_DOMAINS])
             exp_res = l_rule or under_any(hl, [d.lower() for d in list(SHORTENER_DOMAINS) + list(SHOULD_RESOLVE_DOMAINS)])
             if io["short"] is not exp_short or io["resolve"] is not exp_res:
